@@ -29,8 +29,8 @@ import (
 	"github.com/ajitpratap0/GoSQLX/pkg/sql/tokenizer"
 
 	"verif/internal/core"
-	"verif/internal/gram"
 	"verif/internal/entry"
+	"verif/internal/gram"
 	"verif/internal/lexcheck"
 	"verif/internal/lexconc"
 	"verif/internal/stmts"
@@ -66,7 +66,7 @@ func familyOK(stage, code string) bool {
 		return code == "E2007"
 	case "lex":
 		return strings.HasPrefix(code, "E1") && code != "E1006" && code != "E1007"
-	case "parse":
+	case "parse", "empty":
 		return strings.HasPrefix(code, "E2") && code != "E2007"
 	}
 	return false
@@ -130,14 +130,23 @@ func main() {
 	ps := pin.Stat("pinned shape (bare roots, flattening layers): the structured error is lost")
 	ps.ExpectViol = pin.Violation
 	run.AddTLC(ps)
+	sh, err := core.RunTLC(core.TLCOpts{Spec: "ErrorValue", Cfg: "ErrorValue_shared.cfg", Workers: 2, Timeout: 2 * time.Minute})
+	if err != nil || sh.Violation != "Reproducible" {
+		core.Fatalf("ErrorValue_shared.cfg must violate Reproducible (got %q, %v)", sh.Violation, err)
+	}
+	ss := sh.Stat("shared-root shape (one error object for the empty stage, written by position-tracking entry points): a run depends on the call before it")
+	ss.ExpectViol = "Reproducible"
+	run.AddTLC(ss)
 	type pair struct{ Ep, Stage, Family string }
 	pairs := map[pair]bool{}
+	quads := map[quad]bool{}
 	for _, line := range ev.Cases {
-		var p pair
-		if err := json.Unmarshal([]byte(line), &p); err != nil {
-			core.Fatalf("bad pair %q", line)
+		var q quad
+		if err := json.Unmarshal([]byte(line), &q); err != nil {
+			core.Fatalf("bad case %q", line)
 		}
-		pairs[p] = true
+		pairs[pair{q.Ep, q.Stage, q.Family}] = true
+		quads[q] = true
 	}
 
 	// inputs per stage
@@ -220,6 +229,9 @@ func main() {
 			core.Fatalf("only %d (context, expression) pairs are accepted at shallow depth", n)
 		}
 	}
+	for _, e := range []string{"", ";", ";;;\n  ;", "  \n\t", "-- nothing\n", "/* nothing */ ;"} {
+		byStage["empty"] = append(byStage["empty"], input{"empty", e, "no-statement"})
+	}
 	byStage["size"] = []input{{"size", "SELECT 1" + strings.Repeat(" ", tokenizer.MaxInputSize-7), "size+1"}}
 	byStage["tokens"] = []input{{"tokens", "SELECT 1" + strings.Repeat(",1", tokenizer.MaxTokens/2+10), "tokens+"}}
 	for st, ins := range byStage {
@@ -276,11 +288,99 @@ func main() {
 	if classMismatch*20 > judged {
 		core.Fatalf("%d of %d runs were accepted although the input class is rejected", classMismatch, judged+classMismatch)
 	}
+	// the second half of Reproducible: another call - any entry point, failing in any stage or succeeding - between
+	// two runs of the same call changes neither what the second run returns nor the error value already returned
+	{
+		rep := func(st string) []input {
+			ins := byStage[st]
+			switch st {
+			case "accept":
+				return []input{{"accept", "SELECT a FROM t WHERE b = 1", "valid"}, {"accept", "SELECT a,\n  b\nFROM t\nORDER BY a;\nSELECT 2", "valid"}}
+			case "empty":
+				return ins
+			case "size", "tokens":
+				return ins[:1]
+			}
+			// a short one, one from the middle (thorough), a multi-line one
+			out := []input{ins[0]}
+			if tier == "thorough" {
+				out = append(out, ins[len(ins)/2])
+			}
+			for _, in := range ins {
+				if strings.Contains(in.text, "\n") && len(in.text) < 400 {
+					out = append(out, in)
+					break
+				}
+			}
+			return out
+		}
+		n := 0
+		qwork := make(chan quad, 256)
+		var qwg sync.WaitGroup
+		for w := 0; w < 16; w++ {
+			qwg.Add(1)
+			go func() {
+				defer qwg.Done()
+				for q := range qwork {
+					between(q, rep, tier)
+				}
+			}()
+		}
+		for q := range quads {
+			if q.Stage == "cancel" || q.Stage2 == "cancel" {
+				continue
+			}
+			n++
+			if (q.Stage == "size" || q.Stage == "tokens") && tier != "thorough" && (n+int(run.Seed))%8 != 0 {
+				continue
+			}
+			qwork <- q
+		}
+		close(qwork)
+		qwg.Wait()
+		run.Extra["call_pairs_with_a_call_between"] = n
+	}
 	recoveryUnwrap(byStage["parse"])
 	cancellation()
 	run.Traces(int64(len(pairs)))
 	run.Exhaustive = false
 	run.Finish()
+}
+
+type quad struct{ Ep, Stage, Family, Ep2, Stage2 string }
+
+// between runs call (q.Ep, x), then (q.Ep2, y), then (q.Ep, x) again for representative inputs of the two stages.
+func between(q quad, rep func(string) []input, tier string) {
+	{
+		{
+			p1, p2 := points[q.Ep], points[q.Ep2]
+			for _, x := range rep(q.Stage) {
+				for _, y := range rep(q.Stage2) {
+					o1 := p1.Run(x.text)
+					if o1.Accept {
+						continue
+					}
+					_ = p2.Run(y.text)
+					held := o1.Refresh()
+					o2 := p1.Run(x.text)
+					run.Eval(3)
+					run.Nontrivial("between" + q.Ep + "\x00" + x.text + "\x00" + q.Ep2 + "\x00" + y.text)
+					cse := map[string]any{"entry_point": q.Ep, "stage": q.Stage, "input": firstN(x.text, 200), "between_entry_point": q.Ep2, "between_stage": q.Stage2, "between_input": firstN(y.text, 200)}
+					show := func(o entry.Outcome) string {
+						return fmt.Sprintf("%s@%d:%d %s", o.Code, o.Line, o.Col, firstN(o.Msg, 100))
+					}
+					if held.Code != o1.Code || held.Msg != o1.Msg || held.Line != o1.Line || held.Col != o1.Col || held.Err != o1.Err {
+						run.Violate(core.Violation{Sig: "returned-error-changed-by-later-call|" + q.Ep + "|" + q.Stage + "|" + q.Ep2, Clause: "the same input always produces the same code, message and location (an error already returned does not change)",
+							Case: cse, Observe: map[string]any{"when_returned": show(o1), "after_the_other_call": show(held)}})
+					}
+					if o2.Accept || o2.Code != o1.Code || o2.Msg != o1.Msg || o2.Line != o1.Line || o2.Col != o1.Col || o2.Err != o1.Err {
+						run.Violate(core.Violation{Sig: "not-reproducible-after-other-call|" + q.Ep + "|" + q.Stage + "|" + q.Ep2 + "|" + q.Stage2, Clause: "the same input always produces the same code, message and location",
+							Case: cse, Observe: map[string]any{"first": show(o1), "again": show(o2)}})
+					}
+				}
+			}
+		}
+	}
 }
 
 // one runs input in through entry point ep three times; false = the entry point accepted it (not judged here).
